@@ -31,7 +31,7 @@ pub struct C03 {
     ctx: Lazy<Context>,
 }
 
-const NFORMS: usize = 18;
+const NFORMS: usize = 22;
 const KILO: i64 = 1000;
 const POWS: [i64; 4] = [2, 14, -14, 30];
 
@@ -82,6 +82,11 @@ fn form(f: usize, t: &U, u: &U) -> (String, Rat, Dims) {
         // constants far outside the f64 range: exact arithmetic has no underflow or overflow
         16 => (format!("1e-400 {}", tn), pow_rat(&rat(10, 1), -400).unwrap() * tv, t.dims.clone()),
         17 => (format!("1e400 {}", tn), pow_rat(&rat(10, 1), 400).unwrap() * tv, t.dims.clone()),
+        // signed constants at the start of a target (the same position as a +hh:mm time offset)
+        18 => (format!("-12 {}", tn), rat(-12, 1) * tv, t.dims.clone()),
+        19 => (format!("+12 {}", tn), rat(12, 1) * tv, t.dims.clone()),
+        20 => (format!("-12*{}", tn), rat(-12, 1) * tv, t.dims.clone()),
+        21 => (format!("-05 {}", tn), rat(-5, 1) * tv, t.dims.clone()),
         _ => (
             format!("(2 {})^2", tn),
             rat(4, 1) * &tv * &tv,
@@ -351,7 +356,7 @@ impl Space for C03 {
         Meta {
             id: "C03",
             level: "exploration",
-            rule: "(a) every ordered pair (u,t) of registry units/base units with equal dimensionality: `1 u -> t` must be a Conversion with raw*value(t)==value(u) exactly, and `x t -> u` must give 1; (b) every unit x one representative of every other dimensionality: Conformance error whose suggestions carry the reciprocal hint iff the product is dimensionless and otherwise name a factor that (parsed back through the quantity table) makes the sides conformable; (c) prefix x plural spellings of a unit core as targets, judged by an independent name resolver; (d) compound sources x 16 compound target shapes (constants, 1|3, ^2, ^-1, ^1, products, quotients, kilo-prefix, inline `foo = 3 t`, sign, zero-valued targets `0 t`, `(t - t)`: Conformance error when not conformable, some error when conformable; constants 1e-400 / 1e400, far outside the f64 range, in sources and targets) over a 12-unit core x rational values. (e) `1 t^p -> (prefix t)^p` for 12 units x every prefix x p in {2, 14, -14, 30} (values down to 1e-720). Non-trivial = judged (not skipped); distinct by query text".into(),
+            rule: "(a) every ordered pair (u,t) of registry units/base units with equal dimensionality: `1 u -> t` must be a Conversion with raw*value(t)==value(u) exactly, and `x t -> u` must give 1; (b) every unit x one representative of every other dimensionality: Conformance error whose suggestions carry the reciprocal hint iff the product is dimensionless and otherwise name a factor that (parsed back through the quantity table) makes the sides conformable; (c) prefix x plural spellings of a unit core as targets, judged by an independent name resolver; (d) compound sources x 16 compound target shapes (constants, 1|3, ^2, ^-1, ^1, products, quotients, kilo-prefix, inline `foo = 3 t`, sign, zero-valued targets `0 t`, `(t - t)`: Conformance error when not conformable, some error when conformable; constants 1e-400 / 1e400, far outside the f64 range, in sources and targets; signed two-digit constants `-12 t`, `+12 t`, `-12*t`, `-05 t` where a time offset could also start) over a 12-unit core x rational values. (e) `1 t^p -> (prefix t)^p` for 12 units x every prefix x p in {2, 14, -14, 30} (values down to 1e-720). Non-trivial = judged (not skipped); distinct by query text".into(),
             assumptions: vec![
                 "unit values come from the registry dump (C08 validates it)".into(),
                 "the single float-valued unit (semitone) is compared to 1e-12 relative".into(),
